@@ -61,6 +61,9 @@ def obligations(tier):
         ob_add_step(),
         Ob('rle_roundtrip', 'ch', 'integer sequences of length 1..5 over -3..3', ['common.Rle.create_rle', 'RLE.add/value/values/num_values/first/last', 'RLEItem.add/value/values/last'],
            harness='C16_rle', func='rle_roundtrip', timeout=150 if q else 900),
+        Ob('rle_roundtrip_large_integers', 'ch', 'integer sequences of length 1..4: base 2**60 / -2**62 / 1.7e18 + i * step (1000 / 0 / 10**6) + offsets -3..3',
+           ['common.Rle.create_rle', 'RLE.add/value/values/num_values/first/last', 'RLEItem.add/value/values/last'],
+           harness='C16_rle', func='rle_roundtrip_large', timeout=150 if q else 900, parts=7),
         Ob('rle_largest_le', 'ch', 'ascending sequences of length 1..4 (first 0..2, gaps 1..3), query first..12', ['common.Rle.RLE.largest_le', 'RLEItem.largest_le'],
            harness='C16_rle', func='rle_largest_le', timeout=150 if q else 900),
         Ob('lis_type01_frame_index', 'ch', '1..4 records, position gaps 1..3, 1..3 frames per record, frame number 0..12',
